@@ -1,6 +1,7 @@
 import BigtreeModel.Modify
 import BigtreeProofs.Lemmas.ModifyFold
 import BigtreeProofs.Lemmas.ModifyEdit
+import BigtreeProofs.Lemmas.ModifyMerge
 /-!
 # C08 — shift / copy / replace perform exactly the documented edit and nothing else
 
@@ -685,6 +686,113 @@ example : call1 (cfgOf false false true false false false true) '/' exTree2 7 [[
 /-- `delete_children` on the example of `PairHyp`: only the bare node arrives -/
 example : call1 (cfgOf false false false false false true true) '/' exTree 5 [['a']] [['b'], ['n'], ['a']]
     = .ok (st0 (.node 0 ['r'] [] [.node 4 ['b'] [] [.node 5 ['n'] [] [.node 1 ['a'] [] []]]]) 6) := by
+  decide +kernel
+
+
+/-! ## merge_children onto an existing destination -/
+
+/-- `merge_children=True`, `overriding=False`, the destination `D` exists; neither node lies
+inside the other; no child of the from-node is called like a child of the destination -/
+structure MergeHyp (cfg : Cfg) (c : Char) (t : Tree) (fpar tpar : List Str) (l : Str)
+    (F D : Tree) : Prop where
+  plain : cfg.Plain c
+  mc : cfg.mergeChildren = true
+  ml : cfg.mergeLeaves = false
+  ov : cfg.overriding = false
+  su : SibUnique t
+  gf : GoodNames c (t.name :: fpar ++ [l])
+  gt : GoodNames c (t.name :: tpar ++ [l])
+  found : getRel (fpar ++ [l]) t = some F
+  dest : getRel (tpar ++ [l]) t = some D
+  out1 : (fpar ++ [l]).isPrefixOf (tpar ++ [l]) = false
+  out2 : (tpar ++ [l]).isPrefixOf (fpar ++ [l]) = false
+  noclash : ∀ x ∈ F.children, ∀ y ∈ D.children, y.name ≠ x.name
+
+/-- `merge_children`: every child of the from-node (all of them, with their subtrees, as the same
+objects) appears under the destination, the from-node is gone, everything else — the destination's
+own children included — is untouched, in the old order; no object is created. -/
+theorem merge_children_paths {cfg c t k fpar tpar l F D} (h : MergeHyp cfg c t fpar tpar l F D)
+    (hcp : cfg.copy = false) :
+    ∃ t', call1 cfg c t k (fpar ++ [l]) (tpar ++ [l]) = .ok (st0 t' k) ∧ SibUnique t' ∧
+      (∀ x ∈ F.children, (flat t').filter (under (tpar ++ [l] ++ [x.name]))
+          = (flat (stripIf cfg.deleteChildren x)).map (rebase (tpar ++ [l] ++ [x.name]))) ∧
+      (flat t').filter (fun e => !underAny (tpar ++ [l]) F.children e)
+        = (flat t).filter (fun e => !under (fpar ++ [l]) e) ∧
+      (∀ q, q ∈ paths t' ↔
+        (q ∈ paths t ∧ ¬ (fpar ++ [l]) <+: q) ∨
+        (∃ x ∈ F.children, ∃ r ∈ paths (stripIf cfg.deleteChildren x), q = tpar ++ [l] ++ [x.name] ++ r)) := by
+  obtain ⟨t', hcall, hsu', hkids, hrest⟩ :=
+    merge_children_core h.plain hcp h.mc h.ml h.ov t k fpar tpar l F D h.su h.gf h.gt h.found h.dest
+      h.out1 h.out2 h.noclash
+  refine ⟨t', hcall, hsu', hkids, hrest, fun q => ?_⟩
+  constructor
+  · intro hq
+    obtain ⟨e, he, rfl⟩ := List.mem_map.1 hq
+    cases hue : underAny (tpar ++ [l]) F.children e with
+    | true =>
+      right
+      simp only [underAny, List.any_eq_true] at hue
+      obtain ⟨x, hx, hux⟩ := hue
+      have : e ∈ (flat t').filter (under (tpar ++ [l] ++ [x.name])) := List.mem_filter.2 ⟨he, hux⟩
+      rw [hkids x hx] at this
+      obtain ⟨e0, he0, rfl⟩ := List.mem_map.1 this
+      exact ⟨x, hx, e0.1, List.mem_map.2 ⟨e0, he0, rfl⟩, rfl⟩
+    | false =>
+      left
+      have : e ∈ (flat t').filter (fun e => !underAny (tpar ++ [l]) F.children e) :=
+        List.mem_filter.2 ⟨he, by simp [hue]⟩
+      rw [hrest] at this
+      obtain ⟨h1, h2⟩ := List.mem_filter.1 this
+      refine ⟨List.mem_map.2 ⟨e, h1, rfl⟩, fun hp => ?_⟩
+      have := List.isPrefixOf_iff_prefix.2 hp
+      simp only [under] at h2; rw [this] at h2; cases h2
+  · rintro (⟨hq, hn⟩ | ⟨x, hx, r, hr', rfl⟩)
+    · obtain ⟨e, he, rfl⟩ := List.mem_map.1 hq
+      have : e ∈ (flat t).filter (fun e => !under (fpar ++ [l]) e) := by
+        refine List.mem_filter.2 ⟨he, ?_⟩
+        cases hu : under (fpar ++ [l]) e with
+        | false => rfl
+        | true => exact absurd (List.isPrefixOf_iff_prefix.1 hu) hn
+      rw [← hrest] at this
+      exact List.mem_map.2 ⟨e, (List.mem_filter.1 this).1, rfl⟩
+    · obtain ⟨e0, he0, rfl⟩ := List.mem_map.1 hr'
+      have : rebase (tpar ++ [l] ++ [x.name]) e0 ∈ (flat t').filter (under (tpar ++ [l] ++ [x.name])) := by
+        rw [hkids x hx]; exact List.mem_map.2 ⟨e0, he0, rfl⟩
+      exact List.mem_map.2 ⟨_, (List.mem_filter.1 this).1, rfl⟩
+
+/-- `r(m(k0 … k5), q(m(u)))`: a from-node with six children (the "merges only the first three
+children" mutant is refuted by `merge_children_paths` on this instance) -/
+def exWide : Tree :=
+  .node 0 ['r'] [] [
+    .node 1 ['m'] [] [.node 2 ['k','0'] [] [], .node 3 ['k','1'] [] [.node 4 ['g'] [] []],
+                      .node 5 ['k','2'] [] [], .node 6 ['k','3'] [] [], .node 7 ['k','4'] [] [],
+                      .node 8 ['k','5'] [] []],
+    .node 9 ['q'] [] [.node 10 ['m'] [] [.node 11 ['u'] [] []]]]
+
+example : MergeHyp (cfgOf false false false true false false true) '/' exWide [] [['q']] ['m']
+    (.node 1 ['m'] [] [.node 2 ['k','0'] [] [], .node 3 ['k','1'] [] [.node 4 ['g'] [] []],
+                      .node 5 ['k','2'] [] [], .node 6 ['k','3'] [] [], .node 7 ['k','4'] [] [],
+                      .node 8 ['k','5'] [] []])
+    (.node 10 ['m'] [] [.node 11 ['u'] [] []]) where
+  plain := ⟨rfl, rfl, rfl, rfl⟩
+  mc := rfl
+  ml := rfl
+  ov := rfl
+  su := by decide +kernel
+  gf := by decide +kernel
+  gt := by decide +kernel
+  found := by decide +kernel
+  dest := by decide +kernel
+  out1 := by decide +kernel
+  out2 := by decide +kernel
+  noclash := by decide +kernel
+
+example : call1 (cfgOf false false false true false false true) '/' exWide 12 [['m']] [['q'], ['m']]
+    = .ok (st0 (.node 0 ['r'] [] [
+      .node 9 ['q'] [] [.node 10 ['m'] [] [.node 11 ['u'] [] [],
+        .node 2 ['k','0'] [] [], .node 3 ['k','1'] [] [.node 4 ['g'] [] []],
+        .node 5 ['k','2'] [] [], .node 6 ['k','3'] [] [], .node 7 ['k','4'] [] [],
+        .node 8 ['k','5'] [] []]]]) 12) := by
   decide +kernel
 
 end C08
